@@ -5,6 +5,7 @@ import (
 	"io"
 	"path"
 	"regexp"
+	"sort"
 
 	"github.com/spf13/afero"
 	"google.golang.org/protobuf/encoding/protojson"
@@ -175,7 +176,14 @@ func OutputSplitApplications(
 	fileName string,
 	fs afero.Fs) error {
 	var err error = nil
-	for appName, app := range module.Apps {
+	// applications whose names give the same path overwrite each other: visit in name order
+	appNames := make([]string, 0, len(module.Apps))
+	for appName := range module.Apps {
+		appNames = append(appNames, appName)
+	}
+	sort.Strings(appNames)
+	for _, appName := range appNames {
+		app := module.Apps[appName]
 		fd, err := CreatePathForApplication(appName, basePath, app, fileName, fs)
 		if err != nil {
 			return err
